@@ -11,8 +11,9 @@ Reading.  The quantifier "for the full matrix {load, loads, load_all, loads_all,
 cdxml, unsupported} × {path, stream, str} × {molecule, ensemble, Structure class} × {name given, not given}" is a
 finite table: `Molli.Model.Dispatch.Config` (432 configurations).  A path source / target can name its format a
 second time, by its suffix, so the matrix carries a sixth dimension, the FORM of the path argument (explicit format
-with a matching / no / other supported / unsupported suffix, or format deduced from the suffix):
-`Molli.Model.Dispatch.Cell` (2160 cells, `allCells`, `mem_allCells`).
+with a matching / no / other supported / unsupported suffix, or format deduced from the suffix of the path as given,
+also when that path is a symbolic link to a file named otherwise):
+`Molli.Model.Dispatch.Cell` (2592 cells, `allCells`, `mem_allCells`).
 `Molli.Gen.Dispatch.observed` is what the code DOES in each cell (regenerated from the live repository on every
 run by spying on the class methods); `Molli.Model.Dispatch.spec` is what the property DEMANDS (written from the
 statement above).  `dispatch_agrees` is the whole property at the level of dispatch; the corollaries spell out
@@ -31,8 +32,8 @@ theorem dispatch_agrees : ∀ c : Cell, observed c = spec classRaises c := by
   intro c
   exact lookup_of_zip_all table_complete table_agrees c
 
-/-- the matrix has 2160 cells and every cell has its own row of the observed table -/
-theorem matrix_complete : allCells.length = 2160 ∧ table.length = 2160 ∧ ∀ c : Cell, c.idx < table.length := by
+/-- the matrix has 2592 cells and every cell has its own row of the observed table -/
+theorem matrix_complete : allCells.length = 2592 ∧ table.length = 2592 ∧ ∀ c : Cell, c.idx < table.length := by
   refine ⟨allCells_length, table_complete, fun c => ?_⟩
   rw [table_complete]; exact idx_lt c
 
